@@ -50,6 +50,8 @@ type Engine struct {
 	implCache map[string][]*ssa.Function
 	intFuncs  map[string]bool
 	nonNilElems map[string]bool // type keys of pointer element types that are never nil inside slices
+	nonNilFields map[string]string // family key H|T|f -> "checked" | "assumed"
+	nonNilBoxed  map[string]bool
 }
 
 func loadEngine(repoDir string) (*Engine, error) {
@@ -137,6 +139,36 @@ func loadEngine(repoDir string) (*Engine, error) {
 		e.allFuncs = append(e.allFuncs, fn)
 	}
 	sort.Slice(e.allFuncs, func(i, j int) bool { return e.allFuncs[i].String() < e.allFuncs[j].String() })
+	e.nonNilBoxed = map[string]bool{}
+	for _, nb := range e.contracts.NonNilBoxed {
+		if p := e.pkgByPath[nb[0]]; p != nil {
+			if tv, err := types.Eval(fset, p.Types, e.contractPos[nb[0]], nb[1]); err == nil && tv.IsType() {
+				e.nonNilBoxed[typeKey(tv.Type)] = true
+			}
+		}
+	}
+	e.nonNilFields = map[string]string{}
+	for _, nf := range e.contracts.NonNilFields {
+		p := e.pkgByPath[nf[0]]
+		if p == nil {
+			continue
+		}
+		i := strings.LastIndex(nf[1], ".")
+		if i < 0 {
+			e.contracts.Errors = append(e.contracts.Errors, "nonnil-field needs T.f: "+nf[1])
+			continue
+		}
+		tv, err := types.Eval(fset, p.Types, e.contractPos[nf[0]], nf[1][:i])
+		if err != nil || !tv.IsType() {
+			e.contracts.Errors = append(e.contracts.Errors, fmt.Sprintf("nonnil-field %s: cannot resolve type", nf[1]))
+			continue
+		}
+		kind := "checked"
+		if nf[2] == "assume-nonnil-field" {
+			kind = "assumed"
+		}
+		e.nonNilFields[fmt.Sprintf("H|%s|%s", typeKey(tv.Type), nf[1][i+1:])] = kind
+	}
 	e.nonNilElems = map[string]bool{}
 	for _, nn := range e.contracts.NonNil {
 		p := e.pkgByPath[nn[0]]
@@ -254,9 +286,15 @@ func (e *Engine) prelude() string {
 		b.WriteByte('\n')
 	}
 	b.WriteString("(declare-fun tag-uncomparable (Int) Bool)\n")
-	for _, k := range e.u.tagList {
+	for i, k := range e.u.tagList {
 		n := e.u.tags[k]
 		b.WriteString(fmt.Sprintf("; tag %d = %s\n", n, k))
+		b.WriteString(fmt.Sprintf("(assert (= (tag-kind %d) %d))\n", n, tagKind(e.u.tagTypes[i])))
+		if types.Comparable(e.u.tagTypes[i]) {
+			b.WriteString(fmt.Sprintf("(assert (not (tag-uncomparable %d)))\n", n))
+		} else {
+			b.WriteString(fmt.Sprintf("(assert (tag-uncomparable %d))\n", n))
+		}
 	}
 	for _, n := range e.ghostOrd {
 		b.WriteString(e.ghostDecl[n])
